@@ -523,3 +523,9 @@ Fixpoint run_trace (v : variant) (s : st) (ops : list op) : list (list event * Z
 
 Definition run_fixed (ops : list op) := run_trace fixedv init ops.
 Definition run_variant (d f k y : bool) (ops : list op) := run_trace (mkVariant d f k y) init ops.
+
+(* ghost notions used by the statements: the sequence number of the byte at absolute stream
+   offset o for initial sequence number i (the SYN takes i, the first data byte i+1), and the
+   slice S[a, a+n) of the sender stream *)
+Definition sq (i o : Z) : Z := (i + 1 + o) mod M32.
+Definition sub (S : list Z) (a n : Z) : list Z := ztake n (zskip a S).
